@@ -223,6 +223,115 @@ Qed.
 Lemma leaf_val_settled maxd d v : settled (leaf_val maxd d v).
 Proof. destruct d; cbn [leaf_val]; try apply of_cres_settled. apply settled_invalid. Qed.
 
+(* ------------------------------------------------------------------ decimal text of an int *)
+
+Lemma div_eucl_10 n q r : N.div_eucl n 10 = (q, r) -> n = 10 * q + r /\ r < 10.
+Proof.
+  intro E. pose proof (N.div_eucl_spec n 10) as S. rewrite E in S.
+  split; [exact S|].
+  assert (r = n mod 10) by (unfold N.modulo; rewrite E; reflexivity). subst r.
+  apply N.mod_lt. discriminate.
+Qed.
+
+Lemma digit_ok r : r < 10 -> ((48 <=? 48 + r) && (48 + r <=? 57)) = true /\ (48 + r - 48 = r).
+Proof.
+  intro H. split; [|lia]. apply andb_true_iff. split; apply N.leb_le; lia.
+Qed.
+
+(* reading back the digits written by dec_digits *)
+Lemma dec_digits_value : forall fuel n acc,
+  n < 10 ^ N.of_nat fuel ->
+  exists d : nat, forall a, dec_value (dec_digits fuel n acc) a = dec_value acc (a * 10 ^ Z.of_nat d + Z.of_N n)%Z.
+Proof.
+  induction fuel as [|f IH]; intros n acc H.
+  - cbn in H. assert (n = 0) by lia. subst. exists O. intro a. cbn [dec_digits].
+    cbn [Z.of_nat]. rewrite Z.pow_0_r, Z.mul_1_r, Z.add_0_r. reflexivity.
+  - cbn [dec_digits]. destruct (N.div_eucl n 10) as [q r] eqn:E.
+    destruct (div_eucl_10 _ _ _ E) as [En Hr]. destruct (digit_ok r Hr) as [D1 D2].
+    destruct (q =? 0) eqn:Q.
+    + apply N.eqb_eq in Q. subst q. exists 1%nat. intro a. cbn [dec_value]. rewrite D1, D2.
+      cbn [Z.of_nat Pos.of_succ_nat]. rewrite Z.pow_1_r. f_equal. lia.
+    + assert (Hq : q < 10 ^ N.of_nat f).
+      { rewrite Nat2N.inj_succ, N.pow_succ_r' in H. lia. }
+      destruct (IH q ((48 + r) :: acc) Hq) as [d Hd]. exists (S d). intro a.
+      rewrite Hd. cbn [dec_value]. rewrite D1, D2. f_equal.
+      rewrite Nat2Z.inj_succ, Z.pow_succ_r by lia. subst n. lia.
+Qed.
+
+Lemma dec_digits_head : forall fuel n acc, exists c r, dec_digits (S fuel) n acc = c :: r /\ 48 <= c /\ c <= 57.
+Proof.
+  induction fuel as [|f IH]; intros n acc.
+  - cbn [dec_digits]. destruct (N.div_eucl n 10) as [q r] eqn:E.
+    destruct (div_eucl_10 _ _ _ E) as [_ Hr]. destruct (q =? 0); eexists _, _; (split; [reflexivity | lia]).
+  - cbn [dec_digits]. destruct (N.div_eucl n 10) as [q r] eqn:E.
+    destruct (div_eucl_10 _ _ _ E) as [_ Hr]. destruct (q =? 0).
+    + eexists _, _; (split; [reflexivity | lia]).
+    + apply IH.
+Qed.
+
+Lemma fuel_enough n : n < 10 ^ N.of_nat (S (N.to_nat (N.log2 n))).
+Proof.
+  rewrite Nat2N.inj_succ, N2Nat.id.
+  destruct n as [|p]; [cbn; lia|].
+  pose proof (N.log2_spec (Npos p) eq_refl) as [_ H].
+  eapply N.lt_le_trans; [exact H|]. apply N.pow_le_mono_l. lia.
+Qed.
+
+Lemma N_dec_value n : dec_value (N_dec n) 0%Z = Some (Z.of_N n).
+Proof.
+  unfold N_dec. destruct (dec_digits_value _ n [] (fuel_enough n)) as [d Hd].
+  rewrite Hd. cbn [dec_value]. f_equal.
+Qed.
+
+Lemma int_lit_value_digit c r : 48 <= c -> int_lit_value (c :: r) = dec_value (c :: r) 0%Z.
+Proof.
+  intro H. unfold int_lit_value.
+  destruct c as [|p]; [lia|].
+  do 6 (destruct p as [p|p|]; try reflexivity); lia.
+Qed.
+
+Lemma int_str_roundtrip maxd z str : int_str maxd z = Some str -> int_lit_value str = Some z.
+Proof.
+  unfold int_str. destruct (negb (maxd =? 0) && (maxd <? N.of_nat (length (N_dec (Z.abs_N z))))); [discriminate|].
+  intro H; inversion H; subst str; clear H.
+  pose proof (N_dec_value (Z.abs_N z)) as V.
+  destruct (dec_digits_head (N.to_nat (N.log2 (Z.abs_N z))) (Z.abs_N z) []) as [c [r [E [C1 C2]]]].
+  fold (N_dec (Z.abs_N z)) in E. rewrite E in *.
+  destruct (z <? 0)%Z eqn:Neg.
+  - cbn [int_lit_value]. rewrite V. f_equal. apply Z.ltb_lt in Neg. rewrite N2Z.inj_abs_N. lia.
+  - rewrite int_lit_value_digit by exact C1. rewrite V. f_equal. apply Z.ltb_ge in Neg. rewrite N2Z.inj_abs_N. lia.
+Qed.
+
+Lemma dec_digits_len : forall fuel n acc k,
+  n < 10 ^ N.of_nat k -> (1 <= k)%nat -> (length (dec_digits fuel n acc) <= k + length acc)%nat.
+Proof.
+  induction fuel as [|f IH]; intros n acc k H K; cbn [dec_digits]; [lia|].
+  destruct (N.div_eucl n 10) as [q r] eqn:E.
+  destruct (div_eucl_10 _ _ _ E) as [En Hr].
+  destruct (q =? 0) eqn:Q; [cbn [length]; lia|].
+  apply N.eqb_neq in Q.
+  destruct k as [|k]; [lia|]. destruct k as [|k].
+  - cbn in H. lia.
+  - assert (Hq : q < 10 ^ N.of_nat (S k)).
+    { rewrite (Nat2N.inj_succ (S k)), N.pow_succ_r' in H. lia. }
+    specialize (IH q ((48 + r) :: acc) (S k) Hq ltac:(lia)). cbn [length] in IH. lia.
+Qed.
+
+Lemma int_str_some maxd z :
+  (maxd = 0 \/ 309 <= maxd) -> (Z.abs z < 2 ^ 1024)%Z -> exists str, int_str maxd z = Some str.
+Proof.
+  intros M B. unfold int_str.
+  assert (L : (length (N_dec (Z.abs_N z)) <= 309)%nat).
+  { unfold N_dec. pose proof (dec_digits_len (S (N.to_nat (N.log2 (Z.abs_N z)))) (Z.abs_N z) [] 309) as X.
+    cbn [length] in X. rewrite Nat.add_0_r in X. apply X; [|lia].
+    assert (Z.abs_N z < 2 ^ 1024).
+    { apply N2Z.inj_lt. rewrite N2Z.inj_abs_N, N2Z.inj_pow. exact B. }
+    eapply N.lt_le_trans; [exact H|]. apply N.leb_le. vm_compute. reflexivity. }
+  destruct (negb (maxd =? 0) && (maxd <? N.of_nat (length (N_dec (Z.abs_N z))))) eqn:C; [|eauto].
+  exfalso. apply andb_true_iff in C as [C1 C2]. apply negb_true_iff, N.eqb_neq in C1. apply N.ltb_lt in C2.
+  destruct M as [M|M]; [congruence|]. lia.
+Qed.
+
 Lemma leaf_agree {A} (r : result A) (p : path) :
   settled r -> (r = Invalid <-> (if is_good r then [] else [p]) <> []).
 Proof.
@@ -1275,4 +1384,655 @@ Section Agreement.
       destruct (is_null r) eqn:Nr; [|reflexivity]. exfalso.
       pose proof (cval_none _ _ _ _ H Nr). congruence.
   Qed.
+
+  (* ================================================================ variables *)
+
+  Notation cvars_loop := (coerce_vars_loop parse_float maxd s).
+
+  Lemma tag_nil n ps : tag n ps = [] -> ps = [].
+  Proof. destruct ps; cbn; [reflexivity | discriminate]. Qed.
+
+  Lemma vars_rest_good d loop errs o cs :
+    vars_rest d loop errs o = Good ([], cs) ->
+    errs = [] /\ exists cs0, loop = Good ([], cs0) /\
+                   cs = match o with Some y => (v_name d, y) :: cs0 | None => cs0 end.
+  Proof.
+    unfold vars_rest. destruct loop as [[es cs0]| | |]; try discriminate.
+    intro X. inversion X as [[E1 E2]]. apply app_eq_nil in E1 as [-> ->]. split; [reflexivity|]. exists cs0. auto.
+  Qed.
+
+  Lemma vars_default_errs_bad fuel d dl loop cs :
+    vars_default_errs parse_float s fuel d dl loop = Good ([], cs) -> False.
+  Proof.
+    unfold vars_default_errs. destruct (vlit fuel true [] (v_type d) dl []) as [[|p0 ps0]|]; try discriminate;
+      intro X; apply vars_rest_good in X as [X _]; discriminate.
+  Qed.
+
+  Lemma vars_loop_complete fuel inputs :
+    (forall k v, In (k, v) inputs -> wf_val v) ->
+    forall defs cs, cvars_loop fuel defs inputs = Good ([], cs) ->
+    forall d, In d defs ->
+      (is_undef (dget (v_name d) inputs) = false \/ v_default d <> None) ->
+      exists y, In (v_name d, y) cs /\ conforms (v_type d) y.
+  Proof.
+    intros Winp. induction defs as [|d0 defs IH]; intros cs H d I Hd; [destruct I|].
+    cbn [coerce_vars_loop] in H. cbv zeta in H.
+    set (value := dget (v_name d0) inputs) in *.
+    set (loop := cvars_loop fuel defs inputs) in *.
+    assert (Wv : wf_val value).
+    { unfold value, dget. destruct (assoc (v_name d0) inputs) eqn:E; [|constructor].
+      apply assoc_in in E. eapply Winp; eauto. }
+    assert (TAIL : forall o cs0, loop = Good ([], cs0) ->
+      cs = match o with Some y => (v_name d0, y) :: cs0 | None => cs0 end ->
+      In d defs -> exists y, In (v_name d, y) cs /\ conforms (v_type d) y).
+    { intros o cs0 L -> Id. destruct (IH cs0 L d Id Hd) as [y [Iy Cy]]. exists y. split; [|exact Cy].
+      destruct o; [right; exact Iy | exact Iy]. }
+    assert (BYVAL : vars_by_value parse_float maxd s fuel d0 value loop = Good ([], cs) ->
+      exists y, In (v_name d, y) cs /\ conforms (v_type d) y).
+    { unfold vars_by_value. intro X.
+      destruct (cval fuel (v_type d0) value) as [y| | |] eqn:C; try discriminate.
+      - apply vars_rest_good in X as [_ [cs0 [L E]]].
+        destruct I as [<-|Id]; [|exact (TAIL (Some y) cs0 L E Id)].
+        exists y. split; [rewrite E; left; reflexivity | eapply conforms_val; eauto].
+      - destruct (vval fuel (v_type d0) value []) as [ps|] eqn:V; [|discriminate].
+        apply vars_rest_good in X as [T _]. exfalso.
+        apply tag_nil in T. subst ps.
+        assert (St : settled (cval fuel (v_type d0) value)) by (rewrite C; apply settled_invalid).
+        pose proof (value_agree fuel (v_type d0) value [] [] Wv St V) as A.
+        destruct A as [A _]. apply A; [exact C | reflexivity]. }
+    destruct (is_undef value) eqn:U.
+    - destruct (v_default d0) as [dl|] eqn:Df.
+      + destruct (clit fuel [] (v_type d0) dl) as [y| | |] eqn:C; try discriminate.
+        * apply vars_rest_good in H as [_ [cs0 [L E]]].
+          destruct I as [<-|Id]; [|exact (TAIL (Some y) cs0 L E Id)].
+          exists y. split; [rewrite E; left; reflexivity | eapply conforms_lit; eauto].
+        * exfalso. exact (vars_default_errs_bad _ _ _ _ _ H).
+        * exfalso. exact (vars_default_errs_bad _ _ _ _ _ H).
+      + destruct (is_nonnull (v_type d0)); [exact (BYVAL H)|].
+        apply vars_rest_good in H as [_ [cs0 [L E]]].
+        destruct I as [<-|Id]; [|exact (TAIL None cs0 L E Id)].
+        exfalso. fold value in Hd. destruct Hd; congruence.
+    - exact (BYVAL H).
+  Qed.
 End Agreement.
+
+(* ================================================================== value -> literal -> value *)
+
+Definition leafy (l : lit) : bool :=
+  match l with
+  | LInt _ | LFloat _ | LString _ | LBool _ | LEnum _ => true
+  | _ => false
+  end.
+
+Definition is_llist (l : lit) : bool := match l with LList _ => true | _ => false end.
+Definition is_plist (v : pyval) : bool := match v with PList _ => true | _ => false end.
+
+Lemma lit_get_notin k fs : ~ In k (map fst fs) -> lit_get k fs = None.
+Proof.
+  induction fs as [|[k' l] fs IH]; cbn [lit_get map fst]; intro H; [reflexivity|].
+  rewrite IH by (intro X; apply H; right; exact X).
+  destruct (nat_list_eqb k k') eqn:E; [|reflexivity].
+  apply nat_list_eqb_eq in E. exfalso. apply H. left. symmetry. exact E.
+Qed.
+
+Lemma lit_get_nodup k l fs : NoDup (map fst fs) -> In (k, l) fs -> lit_get k fs = Some l.
+Proof.
+  induction fs as [|[k' l'] fs IH]; cbn [lit_get map fst]; intros ND I; [destruct I|].
+  inversion ND as [|? ? Hn ND']; subst. destruct I as [E|I].
+  - inversion E; subst. rewrite lit_get_notin by exact Hn. rewrite nat_list_eqb_refl. reflexivity.
+  - rewrite (IH ND' I). reflexivity.
+Qed.
+
+Lemma nodup_map_inj {A B} (g : A -> B) l x y : NoDup (map g l) -> In x l -> In y l -> g x = g y -> x = y.
+Proof.
+  induction l as [|z l IH]; cbn [map]; intros ND Ix Iy E; [destruct Ix|].
+  inversion ND as [|? ? Hn ND']; subst.
+  destruct Ix as [->|Ix], Iy as [->|Iy]; auto.
+  - exfalso. apply Hn. rewrite E. apply in_map. exact Iy.
+  - exfalso. apply Hn. rewrite <- E. apply in_map. exact Ix.
+Qed.
+
+Lemma nodup_map_filter {A B} (g : A -> B) (f : A -> bool) l : NoDup (map g l) -> NoDup (map g (filter f l)).
+Proof.
+  induction l as [|x l IH]; cbn [map filter]; intro ND; [constructor|].
+  inversion ND as [|? ? Hn ND']; subst. destruct (f x); cbn [map]; auto.
+  constructor; auto. intro I. apply Hn. apply in_map_iff in I as [y [E Iy]]. apply filter_In in Iy as [Iy _].
+  rewrite <- E. apply in_map. exact Iy.
+Qed.
+
+Lemma seq_fields_ext (s1 s2 : field -> result (option pyval)) fds :
+  (forall fd, In fd fds -> s1 fd = s2 fd) -> seq_fields s1 fds = seq_fields s2 fds.
+Proof.
+  induction fds as [|fd fds IH]; intro H; [reflexivity|]. cbn [seq_fields].
+  rewrite (H fd (or_introl eq_refl)). rewrite IH by (intros; apply H; right; auto). reflexivity.
+Qed.
+
+Section RoundTrip.
+  Variable parse_float : text -> option pyfloat.
+  Variable float_str : pyfloat -> text.
+  Variable maxd : N.
+  Variable s : schema.
+  Hypothesis WF : wf_schema s.
+  (* CPython: the limit is 0 (off) or at least 640 *)
+  Hypothesis HM : maxd = 0 \/ 309 <= maxd.
+  (* the two oracles are inverse to each other on what the coercers emit *)
+  Hypothesis H1 : forall z str, int_representable z = true -> int_str maxd z = Some str ->
+                                 parse_float str = Some (float_of_int z).
+  Hypothesis H2 : forall x, f_finite x = true -> parse_float (float_str x) = Some x.
+
+  Notation cval := (coerce_val parse_float maxd s).
+  Notation clit := (coerce_lit parse_float s).
+  Notation tolit := (to_literal float_str maxd s).
+
+  Lemma int32_small z : int32 z -> (Z.abs z < 2 ^ 1024)%Z.
+  Proof.
+    unfold int32. change (2 ^ 31)%Z with 2147483648%Z. intro H.
+    assert (2147483648 < 2 ^ 1024)%Z by (apply Z.ltb_lt; vm_compute; reflexivity). lia.
+  Qed.
+
+  Lemma scalar_roundtrip sc v r :
+    coerce_input maxd sc v = COk r ->
+    exists l, scalar_to_literal float_str maxd sc v = Good l /\ scalar_lit parse_float sc l = Good r /\ leafy l = true.
+  Proof.
+    destruct sc; cbn [coerce_input scalar_to_literal].
+    - (* Int *)
+      intro H.
+      assert (E : exists z, coerce_int v = COk (PInt z) /\ r = PInt z /\ int32 z).
+      { destruct v; cbn [coerce_int] in *; try discriminate.
+        - apply int_from_int_ok in H as [-> R]. exists z. unfold int_from_int.
+          apply in_int32_spec in R as R'. rewrite R'. auto.
+        - pose proof H as H'. apply int_from_float_ok in H as [z [_ [-> R]]]. exists z. auto. }
+      destruct E as [z [E [-> R]]]. rewrite E.
+      destruct (int_str_some maxd z HM (int32_small z R)) as [str Es]. rewrite Es.
+      exists (LInt str). split; [reflexivity|]. split; [|reflexivity].
+      cbn [scalar_lit]. rewrite (int_str_roundtrip _ _ _ Es). apply in_int32_spec in R. rewrite R. reflexivity.
+    - (* Float *)
+      destruct v; cbn [coerce_float number_literal]; try discriminate; intro H.
+      + apply float_from_int_ok in H as [-> B].
+        assert (Rp : int_representable z = true) by (apply int_representable_spec; exact B).
+        assert (Sm : (Z.abs z < 2 ^ 1024)%Z) by (destruct B as [m [k [_ [_ [_ X]]]]]; exact X).
+        destruct (int_str_some maxd z HM Sm) as [str Es]. rewrite Es.
+        exists (LInt str). split; [reflexivity|]. split; [|reflexivity].
+        cbn [scalar_lit]. unfold float_lit. rewrite (H1 z str Rp Es).
+        destruct (float_of_int_fin z) as [n [m [e E]]]. rewrite E. reflexivity.
+      + apply float_from_float_ok in H as [-> [n [m [e ->]]]]. cbn [f_finite].
+        set (x := FFin n m e). set (str := float_str x).
+        assert (P : parse_float str = Some x) by (apply H2; reflexivity).
+        exists (if is_integer_string str then LInt str else LFloat str). split; [reflexivity|].
+        destruct (is_integer_string str); (split; [|reflexivity]); cbn [scalar_lit]; unfold float_lit; rewrite P; reflexivity.
+    - (* String *)
+      destruct v; cbn [coerce_string]; try discriminate. intro H; inversion H.
+      exists (LString s0). auto.
+    - (* Boolean *)
+      destruct v; cbn [coerce_boolean]; try discriminate. intro H; inversion H.
+      exists (LBool b). auto.
+    - (* ID *)
+      destruct v; cbn [coerce_id]; try discriminate; intro H.
+      + pose proof H as H'. apply str_of_int_ok in H as [str [_ ->]]. rewrite H'.
+        exists (LInt str). auto.
+      + pose proof H as H'. apply id_from_float_ok in H as [z [str [_ [_ ->]]]]. rewrite H'.
+        exists (LInt str). auto.
+      + inversion H. exists (if is_integer_string s0 then LInt s0 else LString s0).
+        destruct (is_integer_string s0); auto.
+  Qed.
+
+  Lemma enum_roundtrip e v r :
+    of_cres (enum_input e v) = Good r ->
+    exists l, enum_to_literal e v = Good l /\ enum_lit e l = Good r /\ leafy l = true.
+  Proof.
+    intro H. destruct v; cbn [enum_input of_cres] in H; try discriminate.
+    destruct (assoc s0 e) as [x|] eqn:E; cbn [of_cres] in H; [|discriminate].
+    exists (LEnum s0). cbn [enum_to_literal enum_lit]. rewrite E. auto.
+  Qed.
+
+  (* facts about the literal produced for a value *)
+  Definition good_lit (v : pyval) (l : lit) : Prop :=
+    is_var l = false /\ (is_lnull l = true -> is_null v = true) /\ (is_llist l = true -> is_plist v = true).
+
+  Lemma leafy_good v l : leafy l = true -> good_lit v l.
+  Proof. destruct l; cbn; try discriminate; intros _; repeat split; discriminate. Qed.
+
+  Definition provided (kvs : list (text * pyval)) (fd : field) : bool :=
+    negb (is_undef (dget (f_name fd) kvs)).
+
+  Section Fields.
+    Variable f : nat.
+    Variable kvs : list (text * pyval).
+    Hypothesis IHf : forall t v r, cval f t v = Good r ->
+      exists l, tolit f t v = Good l /\ clit f [] t l = Good r /\ good_lit v l.
+
+    Let step_v := val_step (cval f) (clit f []) kvs.
+    Let step_t := tolit_step (tolit f) kvs.
+
+    Definition entry_ok (fds : list field) (kl : text * lit) : Prop :=
+      exists fd y, In fd fds /\ f_name fd = fst kl /\
+        clit f [] (f_type fd) (snd kl) = Good y /\ step_v fd = Good (Some y) /\
+        is_var (snd kl) = false /\
+        (is_lnull (snd kl) = true -> is_null (dget (f_name fd) kvs) = true).
+
+    Lemma fields_joint : forall fds out,
+      seq_fields step_v fds = Good out ->
+      exists lfs, seq_lit_fields step_t fds = Good lfs /\
+        map fst lfs = map f_name (filter (provided kvs) fds) /\
+        Forall (entry_ok fds) lfs.
+    Proof.
+      induction fds as [|fd fds IH]; intros out H.
+      - exists []. cbn. repeat split; constructor.
+      - cbn [seq_fields] in H. destruct (step_v fd) as [o| | |] eqn:C; try discriminate.
+        apply rmap_good in H as [out' [H _]]. destruct (IH out' H) as [lfs [L [M F]]].
+        assert (F' : Forall (entry_ok (fd :: fds)) lfs).
+        { eapply Forall_impl; [|exact F]. intros kl [fd0 [y [I R]]]. exists fd0, y. split; [right; exact I | exact R]. }
+        cbn [seq_lit_fields filter]. unfold step_t at 1, tolit_step. unfold provided at 1.
+        unfold step_v, val_step in C.
+        destruct (is_undef (dget (f_name fd) kvs)) eqn:U; cbn [negb].
+        + destruct (required fd); [discriminate|]. rewrite L. exists lfs. cbn [rmap tolit_add]. auto.
+        + apply rmap_good in C as [y [Cy Ey]].
+          destruct (IHf _ _ _ Cy) as [l [T [Cl [G1 [G2 _]]]]]. rewrite T. cbn [rmap]. rewrite L. cbn [rmap tolit_add].
+          exists ((f_name fd, l) :: lfs). split; [reflexivity|]. split; [cbn [map fst]; rewrite M; reflexivity|].
+          constructor; [|exact F']. exists fd, y. cbn [fst snd].
+          split; [left; reflexivity|]. split; [reflexivity|]. split; [exact Cl|].
+          split; [unfold step_v, val_step; rewrite U, Cy; reflexivity|]. split; [exact G1 | exact G2].
+    Qed.
+
+    (* coercing the literal object runs the same field steps *)
+    Lemma lit_steps_same fds lfs :
+      NoDup (map f_name fds) ->
+      map fst lfs = map f_name (filter (provided kvs) fds) ->
+      Forall (entry_ok fds) lfs ->
+      forall fd, In fd fds -> lit_step (clit f []) (clit f []) [] lfs fd = step_v fd.
+    Proof.
+      intros ND M F fd I.
+      assert (NDl : NoDup (map fst lfs)) by (rewrite M; apply nodup_map_filter; exact ND).
+      unfold lit_step. destruct (provided kvs fd) eqn:P.
+      - assert (Il : In (f_name fd) (map fst lfs)).
+        { rewrite M. apply in_map. apply filter_In. auto. }
+        apply in_map_iff in Il as [[k l] [Ek Il]]. cbn [fst] in Ek. subst k.
+        rewrite (lit_get_nodup _ _ _ NDl Il).
+        rewrite Forall_forall in F. destruct (F _ Il) as [fd' [y [I' [En [Cl [Sv [Nv _]]]]]]]. cbn [fst snd] in *.
+        assert (fd' = fd) by (eapply nodup_map_inj; eauto). subst fd'.
+        assert (VM : var_missing [] l = false) by (destruct l; try discriminate Nv; reflexivity).
+        rewrite VM, Cl. cbn [rmap]. symmetry. exact Sv.
+      - assert (Nl : ~ In (f_name fd) (map fst lfs)).
+        { rewrite M. intro X. apply in_map_iff in X as [fd' [E X]]. apply filter_In in X as [_ X].
+          unfold provided in *. rewrite E in X. congruence. }
+        rewrite (lit_get_notin _ _ Nl). unfold step_v, val_step. unfold provided in P.
+        apply negb_false_iff in P. rewrite P. reflexivity.
+    Qed.
+  End Fields.
+
+  Lemma out_keys_no_default f kvs : forall fds out,
+    (forall fd, In fd fds -> f_default fd = None) ->
+    seq_fields (val_step (cval f) (clit f []) kvs) fds = Good out ->
+    map fst out = map f_name (filter (provided kvs) fds).
+  Proof.
+    induction fds as [|fd fds IH]; intros out ND H; cbn [seq_fields] in H.
+    - inversion H. reflexivity.
+    - destruct (val_step (cval f) (clit f []) kvs fd) as [o| | |] eqn:C; try discriminate.
+      apply rmap_good in H as [out' [H ->]].
+      specialize (IH out' (fun fd' I => ND fd' (or_intror I)) H).
+      cbn [filter]. unfold provided at 1. unfold val_step in C.
+      destruct (is_undef (dget (f_name fd) kvs)); cbn [negb].
+      + destruct (required fd); [discriminate|]. unfold default_step in C.
+        rewrite (ND fd (or_introl eq_refl)) in C. inversion C; subst. cbn [add_entry]. exact IH.
+      + apply rmap_good in C as [y [_ ->]]. cbn [add_entry map fst]. rewrite IH. reflexivity.
+  Qed.
+
+  Lemma names_known fds (g : field -> bool) :
+    existsb (fun k => negb (known k fds)) (map f_name (filter g fds)) = false.
+  Proof.
+    destruct (existsb _ _) eqn:E; [|reflexivity]. exfalso.
+    apply existsb_exists in E as [k [I K]]. apply in_map_iff in I as [fd [<- I]].
+    apply filter_In in I as [I _]. apply negb_true_iff in K.
+    assert (known (f_name fd) fds = true) by (apply known_in; eauto). congruence.
+  Qed.
+
+  Lemma list_joint f it :
+    (forall v r, cval f it v = Good r -> exists l, tolit f it v = Good l /\ clit f [] it l = Good r /\ good_lit v l) ->
+    forall items ys, seq_list (cval f it) items = Good ys ->
+    exists ls, seq_list (tolit f it) items = Good ls /\
+               seq_list (lit_item (clit f [] it) [] it) ls = Good ys.
+  Proof.
+    intros IHf. induction items as [|x items IH]; intros ys H; cbn [seq_list] in H.
+    - inversion H. exists []. auto.
+    - destruct (cval f it x) as [y| | |] eqn:C; try discriminate.
+      apply rmap_good in H as [ys' [H ->]]. destruct (IH ys' H) as [ls [L1 L2]].
+      destruct (IHf _ _ C) as [l [T [Cl _]]].
+      exists (l :: ls). cbn [seq_list]. rewrite T, L1. cbn [rmap]. split; [reflexivity|].
+      unfold lit_item at 1. rewrite Cl, L2. reflexivity.
+  Qed.
+
+  Theorem roundtrip : forall fuel t v r,
+    cval fuel t v = Good r ->
+    exists l, tolit fuel t v = Good l /\ clit fuel [] t l = Good r /\ good_lit v l.
+  Proof.
+    induction fuel as [|f IH]; intros t v r H; [discriminate|].
+    assert (NULLCASE : forall t0, is_nonnull t0 = false -> is_null v = true ->
+              exists l, Good LNull = Good l /\ clit (S f) [] t0 l = Good PNone /\ good_lit v l).
+    { intros t0 N0 Nv. exists LNull. split; [reflexivity|]. split.
+      - destruct t0; try discriminate N0; reflexivity.
+      - repeat split; auto; discriminate. }
+    destruct t as [n|it|t']; cbn [coerce_val to_literal] in *.
+    - destruct (is_null v) eqn:Nv. { inversion H. apply NULLCASE; auto. }
+      destruct (assoc n s) as [d|] eqn:A; [|discriminate].
+      destruct d as [sc|e|o fds].
+      + cbn [leaf_val] in H. apply of_cres_good in H.
+        destruct (scalar_roundtrip _ _ _ H) as [l [T [C Lf]]]. exists l. split; [exact T|].
+        split; [|apply leafy_good; exact Lf].
+        assert (Vl : is_var l = false) by (destruct l; try discriminate Lf; reflexivity).
+        rewrite (clit_nonvar parse_float s f [] (TNamed n) l Vl), A.
+        destruct l; try discriminate Lf; exact C.
+      + cbn [leaf_val] in H.
+        destruct (enum_roundtrip _ _ _ H) as [l [T [C Lf]]]. exists l. split; [exact T|].
+        split; [|apply leafy_good; exact Lf].
+        assert (Vl : is_var l = false) by (destruct l; try discriminate Lf; reflexivity).
+        rewrite (clit_nonvar parse_float s f [] (TNamed n) l Vl), A.
+        destruct l; try discriminate Lf; exact C.
+      + destruct v; try discriminate. unfold coerce_obj_val in H.
+        destruct (has_unknown fds kvs) eqn:HU; [discriminate|].
+        destruct (seq_fields (val_step (cval f) (clit f []) kvs) fds) as [out| | |] eqn:SF; try discriminate.
+        destruct (o && negb (oneof_val_ok kvs out)) eqn:OK; [discriminate|]. inversion H; subst r; clear H.
+        destruct (WF _ _ A) as [NDn OD].
+        destruct (fields_joint f kvs IH fds out SF) as [lfs [L [M F]]].
+        exists (LObject lfs). rewrite L. cbn [rmap]. split; [reflexivity|].
+        split; [|repeat split; discriminate].
+        cbn [coerce_lit is_lnull]. rewrite A. unfold coerce_obj_lit.
+        assert (NDl : NoDup (map fst lfs)) by (rewrite M; apply nodup_map_filter; exact NDn).
+        rewrite (node_names_nodup lfs NDl). rewrite M at 1. rewrite names_known.
+        rewrite (seq_fields_ext _ _ fds (lit_steps_same f kvs fds lfs NDn M F)). rewrite SF.
+        destruct o; cbn [andb] in *; [|reflexivity].
+        apply negb_false_iff in OK.
+        assert (OL : oneof_lit_ok lfs out = true); [|rewrite OL; reflexivity].
+        unfold oneof_val_ok in OK. unfold oneof_lit_ok. rewrite (node_names_nodup lfs NDl).
+        destruct (defined_entries kvs) as [|? [|]]; try discriminate.
+        destruct out as [|[k y] [|]]; try discriminate.
+        pose proof (out_keys_no_default f kvs fds _ (OD eq_refl) SF) as OKs. cbn [map fst] in OKs.
+        rewrite <- OKs in M.
+        destruct lfs as [|[k' l] [|]]; try discriminate M. cbn [map fst] in M. inversion M; subst k'.
+        cbn [map fst lit_get]. rewrite nat_list_eqb_refl.
+        unfold dget. cbn [assoc]. rewrite nat_list_eqb_refl. rewrite OK. rewrite andb_true_r.
+        apply negb_true_iff.
+        destruct (is_lnull l) eqn:Nl; [|reflexivity]. exfalso.
+        destruct (Forall_inv F) as [fd [y' [I [En [Cl [Sv [_ Nn]]]]]]]. cbn [fst snd] in *.
+        specialize (Nn Nl).
+        unfold val_step in Sv.
+        destruct (is_undef (dget (f_name fd) kvs)) eqn:U.
+        * destruct (required fd); [discriminate|]. unfold default_step in Sv.
+          rewrite (OD eq_refl fd I) in Sv. discriminate.
+        * assert (dget (f_name fd) kvs = PNone) by (destruct (dget (f_name fd) kvs); cbn in *; congruence).
+          (* the only entry of out is this field's value, and that value is None *)
+          destruct (seq_fields_entries (val_step (cval f) (clit f []) kvs)
+                      (fun fd0 y0 => val_step (cval f) (clit f []) kvs fd0 = Good (Some y0))
+                      fds [(k, y)] (fun _ _ _ X => X) NDn SF) as [Fo _].
+          destruct (Forall_inv Fo) as [fd2 [I2 [E2 S2]]]. cbn [fst snd] in *.
+          assert (Efd : fd2 = fd) by (eapply nodup_map_inj; eauto; congruence). subst fd2.
+          unfold val_step in S2. rewrite U, H in S2. apply rmap_good in S2 as [y2 [Cy2 Ey2]].
+          inversion Ey2; subst y2.
+          apply (cval_of_none parse_float maxd s) in Cy2. subst y. discriminate OK.
+    - destruct (is_null v) eqn:Nv. { inversion H. apply NULLCASE; auto. }
+      assert (NONLIST : is_plist v = false ->
+                rmap (fun y => PList [y]) (cval f it v) = Good r ->
+                exists l, tolit f it v = Good l /\ clit (S f) [] (TList it) l = Good r /\ good_lit v l).
+      { intros NP X. apply rmap_good in X as [y [Cy ->]].
+        destruct (IH _ _ _ Cy) as [l [T [Cl [G1 [G2 G3]]]]]. exists l. split; [exact T|].
+        split; [|repeat split; auto].
+        rewrite (clit_nonvar parse_float s f [] (TList it) l G1).
+        destruct (is_lnull l) eqn:Nl; [specialize (G2 eq_refl); congruence|].
+        destruct l; try (rewrite Cl; reflexivity). specialize (G3 eq_refl). congruence. }
+      destruct v; try (apply NONLIST; [reflexivity | exact H]).
+      apply rmap_good in H as [ys [Hy ->]].
+      destruct (list_joint f it (IH it) l ys Hy) as [ls [L1 L2]].
+      exists (LList ls). rewrite L1. cbn [rmap]. split; [reflexivity|].
+      split; [|repeat split; auto; discriminate].
+      cbn [coerce_lit is_lnull]. rewrite L2. reflexivity.
+    - destruct (is_null v) eqn:Nv; [discriminate|].
+      destruct (IH _ _ _ H) as [l [T [Cl [G1 [G2 G3]]]]]. exists l. split; [exact T|].
+      split; [|repeat split; auto].
+      rewrite (clit_nonvar parse_float s f [] (TNonNull t') l G1).
+      destruct (is_lnull l) eqn:Nl; [specialize (G2 eq_refl); congruence | exact Cl].
+  Qed.
+End RoundTrip.
+
+(* ================================================================== more fuel changes nothing *)
+
+Lemma seq_list_stable {A B} (c1 c2 : A -> result B) l :
+  (forall x, In x l -> settled (c1 x) -> c2 x = c1 x) ->
+  settled (seq_list c1 l) -> seq_list c2 l = seq_list c1 l.
+Proof.
+  induction l as [|x l IH]; intros H St; [reflexivity|]. cbn [seq_list] in *.
+  destruct (c1 x) as [y| | |] eqn:C.
+  - rewrite (H x (or_introl eq_refl)) by (rewrite C; apply settled_good). rewrite C.
+    rewrite IH; [reflexivity | intros; apply H; auto; right; auto | eapply rmap_settled; exact St].
+  - rewrite (H x (or_introl eq_refl)) by (rewrite C; apply settled_invalid). rewrite C. reflexivity.
+  - destruct St as [St _]. congruence.
+  - destruct St as [_ St]. congruence.
+Qed.
+
+Lemma seq_fields_stable (s1 s2 : field -> result (option pyval)) fds :
+  (forall fd, In fd fds -> settled (s1 fd) -> s2 fd = s1 fd) ->
+  settled (seq_fields s1 fds) -> seq_fields s2 fds = seq_fields s1 fds.
+Proof.
+  induction fds as [|fd fds IH]; intros H St; [reflexivity|]. cbn [seq_fields] in *.
+  destruct (s1 fd) as [y| | |] eqn:C.
+  - rewrite (H fd (or_introl eq_refl)) by (rewrite C; apply settled_good). rewrite C.
+    rewrite IH; [reflexivity | intros; apply H; auto; right; auto | eapply rmap_settled; exact St].
+  - rewrite (H fd (or_introl eq_refl)) by (rewrite C; apply settled_invalid). rewrite C. reflexivity.
+  - destruct St as [St _]. congruence.
+  - destruct St as [_ St]. congruence.
+Qed.
+
+Lemma default_step_stable (cd1 cd2 : ityp -> lit -> result pyval) fd :
+  (forall t l, settled (cd1 t l) -> cd2 t l = cd1 t l) ->
+  settled (default_step cd1 fd) -> default_step cd2 fd = default_step cd1 fd.
+Proof.
+  intros H St. unfold default_step in *. destruct (f_default fd) as [dl|]; [|reflexivity].
+  destruct (cd1 (f_type fd) dl) as [y| | |] eqn:C.
+  - rewrite (H _ _) by (rewrite C; apply settled_good). rewrite C. reflexivity.
+  - destruct St as [St _]. congruence.
+  - destruct St as [St _]. congruence.
+  - destruct St as [_ St]. congruence.
+Qed.
+
+Lemma vseq_stable {A} (v1 v2 : nat -> A -> option (list path)) l :
+  (forall x i e, In x l -> v1 i x = Some e -> v2 i x = Some e) ->
+  forall i e, vseq v1 i l = Some e -> vseq v2 i l = Some e.
+Proof.
+  induction l as [|x l IH]; intros H i e V; [exact V|]. cbn [vseq] in *.
+  apply oapp_some in V as [e1 [e2 [V1 [V2 ->]]]].
+  rewrite (H x i e1 (or_introl eq_refl) V1). rewrite (IH (fun y j e' I => H y j e' (or_intror I)) (S i) e2 V2).
+  reflexivity.
+Qed.
+
+Lemma vfields_stable (v1 v2 : field -> option (list path)) fds :
+  (forall fd e, In fd fds -> v1 fd = Some e -> v2 fd = Some e) ->
+  forall e, vfields v1 fds = Some e -> vfields v2 fds = Some e.
+Proof.
+  induction fds as [|fd fds IH]; intros H e V; [exact V|]. cbn [vfields] in *.
+  apply oapp_some in V as [e1 [e2 [V1 [V2 ->]]]].
+  rewrite (H fd e1 (or_introl eq_refl) V1). rewrite (IH (fun y e' I => H y e' (or_intror I)) e2 V2).
+  reflexivity.
+Qed.
+
+Section FuelStable.
+  Variable parse_float : text -> option pyfloat.
+  Variable maxd : N.
+  Variable s : schema.
+
+  Notation cval := (coerce_val parse_float maxd s).
+  Notation vval := (validate_val maxd s).
+  Notation clit := (coerce_lit parse_float s).
+  Notation vlit := (validate_lit parse_float s).
+
+  Lemma clit_stable : forall f vars t l, settled (clit f vars t l) -> clit (S f) vars t l = clit f vars t l.
+  Proof.
+    induction f as [|f IH]; intros vars t l St; [destruct St as [_ St]; exfalso; apply St; reflexivity|].
+    destruct (is_var l) eqn:Vl.
+    - destruct l; try discriminate Vl. reflexivity.
+    - rewrite (clit_nonvar parse_float s (S f) vars t l Vl).
+      rewrite (clit_nonvar parse_float s f vars t l Vl) in *.
+      destruct t as [n|it|t'].
+      + destruct (is_lnull l); [reflexivity|]. destruct (assoc n s) as [d|]; [|reflexivity].
+        destruct d as [sc|e|o fds]; try reflexivity.
+        destruct l; try reflexivity. unfold coerce_obj_lit in *.
+        destruct (existsb _ (node_names fs)); [reflexivity|].
+        assert (E : seq_fields (lit_step (clit (S f) vars) (clit (S f) []) vars fs) fds =
+                    seq_fields (lit_step (clit f vars) (clit f []) vars fs) fds).
+        { apply seq_fields_stable.
+          - intros fd _ S0. unfold lit_step in *.
+            destruct (lit_get (f_name fd) fs) as [node|].
+            + destruct (var_missing vars node).
+              * destruct (required fd); [reflexivity|]. apply default_step_stable; auto.
+              * apply rmap_settled in S0. rewrite (IH _ _ _ S0). reflexivity.
+            + destruct (required fd); [reflexivity|]. apply default_step_stable; auto.
+          - destruct (seq_fields (lit_step (clit f vars) (clit f []) vars fs) fds);
+              [apply settled_good | apply settled_invalid | destruct St as [X _]; congruence | destruct St as [_ X]; congruence]. }
+        rewrite E. reflexivity.
+      + destruct (is_lnull l); [reflexivity|].
+        destruct l; try (apply rmap_settled in St; rewrite (IH _ _ _ St); reflexivity).
+        apply rmap_settled in St. f_equal. apply seq_list_stable; [|exact St].
+        intros x _ S0. unfold lit_item in *.
+        destruct (clit f vars it x) as [y| | |] eqn:C.
+        * rewrite (IH vars it x) by (rewrite C; apply settled_good). rewrite C. reflexivity.
+        * rewrite (IH vars it x) by (rewrite C; apply settled_invalid). rewrite C. reflexivity.
+        * destruct S0 as [X _]. congruence.
+        * destruct S0 as [_ X]. congruence.
+      + destruct (is_lnull l); [reflexivity|]. apply IH. exact St.
+  Qed.
+
+  Lemma cval_unfold f t v :
+    cval (S f) t v =
+    match t with
+    | TNonNull t' => if is_null v then Invalid else cval f t' v
+    | TList it =>
+        if is_null v then Good PNone else
+        match v with
+        | PList items => rmap PList (seq_list (cval f it) items)
+        | _ => rmap (fun y => PList [y]) (cval f it v)
+        end
+    | TNamed n =>
+        if is_null v then Good PNone else
+        match assoc n s with
+        | None => Crash
+        | Some (DInput oneof fds) =>
+            match v with
+            | PDict kvs => coerce_obj_val (cval f) (clit f []) oneof fds kvs
+            | _ => Invalid
+            end
+        | Some d => leaf_val maxd d v
+        end
+    end.
+  Proof. reflexivity. Qed.
+
+  Lemma vval_unfold f t v p :
+    vval (S f) t v p =
+    match t with
+    | TNonNull t' => if is_null v then Some [p] else vval f t' v p
+    | TList it =>
+        if is_null v then Some [] else
+        match v with
+        | PList items => vseq (fun i x => vval f it x (p ++ [PIdx i])) O items
+        | _ => vval f it v p
+        end
+    | TNamed n =>
+        if is_null v then Some [] else
+        match assoc n s with
+        | None => Some []
+        | Some (DInput oneof fds) =>
+            match v with
+            | PDict kvs => validate_obj_val (vval f) oneof fds kvs p
+            | _ => Some [p]
+            end
+        | Some d => Some (if is_good (leaf_val maxd d v) then [] else [p])
+        end
+    end.
+  Proof. reflexivity. Qed.
+
+  Lemma cval_stable : forall f t v, settled (cval f t v) -> cval (S f) t v = cval f t v.
+  Proof.
+    induction f as [|f IH]; intros t v St; [destruct St as [_ St]; exfalso; apply St; reflexivity|].
+    rewrite (cval_unfold (S f)). rewrite (cval_unfold f) in *.
+    destruct t as [n|it|t'].
+    - destruct (is_null v); [reflexivity|]. destruct (assoc n s) as [d|]; [|reflexivity].
+      destruct d as [sc|e|o fds]; try reflexivity.
+      destruct v; try reflexivity. unfold coerce_obj_val in *.
+      destruct (has_unknown fds kvs); [reflexivity|].
+      assert (E : seq_fields (val_step (cval (S f)) (clit (S f) []) kvs) fds =
+                  seq_fields (val_step (cval f) (clit f []) kvs) fds).
+      { apply seq_fields_stable.
+        - intros fd _ S0. unfold val_step in *.
+          destruct (is_undef (dget (f_name fd) kvs)).
+          + destruct (required fd); [reflexivity|]. apply default_step_stable; auto.
+            intros t0 l0. apply clit_stable.
+          + apply rmap_settled in S0. rewrite (IH _ _ S0). reflexivity.
+        - destruct (seq_fields (val_step (cval f) (clit f []) kvs) fds);
+            [apply settled_good | apply settled_invalid | destruct St as [X _]; congruence | destruct St as [_ X]; congruence]. }
+      rewrite E. reflexivity.
+    - destruct (is_null v); [reflexivity|].
+      destruct v; try (apply rmap_settled in St; rewrite (IH _ _ St); reflexivity).
+      apply rmap_settled in St. f_equal. apply seq_list_stable; [|exact St].
+      intros x _ S0. apply IH. exact S0.
+    - destruct (is_null v); [reflexivity|]. apply IH. exact St.
+  Qed.
+
+  Lemma vval_stable : forall f t v p e, vval f t v p = Some e -> vval (S f) t v p = Some e.
+  Proof.
+    induction f as [|f IH]; intros t v p e V; [discriminate|].
+    rewrite (vval_unfold (S f)). rewrite (vval_unfold f) in V.
+    destruct t as [n|it|t'].
+    - destruct (is_null v); [exact V|]. destruct (assoc n s) as [d|]; [|exact V].
+      destruct d as [sc|en|o fds]; try exact V.
+      destruct v; try exact V. unfold validate_obj_val in *.
+      apply oapp_some in V as [e1 [e2 [V1 [V2 ->]]]].
+      rewrite (vfields_stable (vval_step (vval f) kvs p) (vval_step (vval (S f)) kvs p) fds) with (e := e1);
+        [rewrite V2; reflexivity | | exact V1].
+      intros fd e0 _ V0. unfold vval_step in *. destruct (is_undef (dget (f_name fd) kvs)); [exact V0|].
+      apply IH. exact V0.
+    - destruct (is_null v); [exact V|].
+      destruct v; try (apply IH; exact V).
+      eapply vseq_stable; [|exact V]. intros x i e0 _ V0. apply IH. exact V0.
+    - destruct (is_null v); [exact V|]. apply IH. exact V.
+  Qed.
+
+  Lemma vlit_stable : forall f static vars t l p e,
+    vlit f static vars t l p = Some e -> vlit (S f) static vars t l p = Some e.
+  Proof.
+    induction f as [|f IH]; intros static vars t l p e V; [discriminate|].
+    destruct (is_var l) eqn:Vl.
+    - destruct l; try discriminate Vl. exact V.
+    - rewrite (vlit_nonvar parse_float s (S f) static vars t l p Vl).
+      rewrite (vlit_nonvar parse_float s f static vars t l p Vl) in V.
+      destruct t as [n|it|t'].
+      + destruct (is_lnull l); [exact V|]. destruct (assoc n s) as [d|]; [|exact V].
+        destruct d as [sc|en|o fds]; try exact V.
+        destruct l; try exact V. unfold validate_obj_lit in *.
+        apply oapp_some in V as [e1 [e2 [V1 [V2 ->]]]].
+        rewrite (vfields_stable (vlit_step (vlit f static vars) static vars o fs p)
+                                (vlit_step (vlit (S f) static vars) static vars o fs p) fds) with (e := e1);
+          [rewrite V2; reflexivity | | exact V1].
+        intros fd e0 _ V0. unfold vlit_step in *.
+        destruct (lit_get (f_name fd) fs) as [node|]; [|exact V0].
+        destruct node; try (apply IH; exact V0).
+        destruct static; [apply IH; exact V0|].
+        destruct o.
+        * apply oapp_some in V0 as [a [b [Va [Vb ->]]]]. rewrite Va. rewrite (IH _ _ _ _ _ _ Vb). reflexivity.
+        * destruct (is_undef (lookup_var n0 vars) && negb (required fd)); [exact V0 | apply IH; exact V0].
+      + destruct (is_lnull l); [exact V|].
+        destruct l; try (apply IH; exact V).
+        eapply vseq_stable; [|exact V]. intros x i e0 _ V0. apply IH. exact V0.
+      + destruct (is_lnull l); [exact V|]. apply IH. exact V.
+  Qed.
+
+  (* once a run settles, every larger fuel gives the same answer *)
+  Theorem fuel_stable f k :
+    (forall t v, settled (cval f t v) -> cval (k + f) t v = cval f t v)
+    /\ (forall vars t l, settled (clit f vars t l) -> clit (k + f) vars t l = clit f vars t l)
+    /\ (forall t v p e, vval f t v p = Some e -> vval (k + f) t v p = Some e)
+    /\ (forall st vars t l p e, vlit f st vars t l p = Some e -> vlit (k + f) st vars t l p = Some e).
+  Proof.
+    induction k as [|k [A [B [C D]]]]; [repeat split; auto|].
+    cbn [plus]. repeat split.
+    - intros t v St. rewrite cval_stable; rewrite (A t v St); auto.
+    - intros vars t l St. rewrite clit_stable; rewrite (B vars t l St); auto.
+    - intros t v p e V. apply vval_stable. apply C. exact V.
+    - intros st vars t l p e V. apply vlit_stable. apply D. exact V.
+  Qed.
+End FuelStable.
